@@ -47,7 +47,11 @@ ItemKinds ==
     {IAttr("a", v) : v \in {NNum(2), NNum(26), StrLit("x"), NTuple(<<NNum(2)>>), NNull, NBool(TRUE),
                              NVar("n1"), NVar("u"), NVar("d"), NVar("nn"),
                              \* strings whose VALUE contains a template introducer (written escaped in both syntaxes)
-                             StrLit("%{y}"), StrLit("a${x}")}}
+                             StrLit("%{y}"), StrLit("a${x}"),
+                             \* object values (also inside a tuple) with a member named like the JSON syntax's
+                             \* comment property: only BODIES ignore "//", values keep it (json/spec.md)
+                             NObject(<<StrLit("//"), NNum(2), NKeyId("k"), StrLit("x")>>),
+                             NTuple(<<NObject(<<StrLit("//"), StrLit("x")>>)>>)}}
     \cup {IAttr("b", NBool(TRUE)), IAttr("c", NNum(2)), IBlock("r", <<>>, <<>>)}
     \cup {IBlock("p", ls, b) : ls \in {<<>>, <<"x">>}, b \in Inners}
     \cup {IBlock("q", ls, b) : ls \in {<<"x">>, <<"y">>, <<"x", "y">>}, b \in Inners}
